@@ -308,6 +308,8 @@ class Workspace(AbstractContextManager):
             entity_type = Data
 
         entity_kwargs.pop("property_groups", None)
+        # the cached DEPTH data of a drillhole belongs to the source: the copy finds its own
+        entity_kwargs.pop("depths", None)
 
         new_object = parent.workspace.create_entity(
             entity_type, **{"entity": entity_kwargs, "entity_type": entity_type_kwargs}
